@@ -12,6 +12,10 @@ import core  # noqa: E402
 import props  # noqa: E402
 
 
+VIA_OPS = {"ewd", "lin_equiv", "api", "rank", "gonality", "play", "greedy", "dhar", "config", "dhar_strategy",
+           "enhanced_dhar", "winnable_hist", "elements", "dhar_batch", "lap", "superstable_count"}
+
+
 def run_sides(pid, scns, wd):
     """returns list of records {scn, py:{seed:out}, lean:out}"""
     by_seed = collections.defaultdict(list)
@@ -146,6 +150,12 @@ def run_check(pid, P, tier, seed, replay, wd, t0):
         for s in scns:
             if isinstance(s, dict) and "edges" in s and "poke" not in s and prng.random() < 0.33:
                 s["poke"] = prng.randrange(1 << 30)
+        # a quarter of the scenarios hand the analyses a divisor that is the result of arithmetic,
+        # of Laplacian.apply or of moves that cancel, instead of a freshly constructed one
+        vrng = random.Random(f"{pid}:via:{seed}")
+        for s in scns:
+            if isinstance(s, dict) and s.get("op") in VIA_OPS and "via" not in s and vrng.random() < 0.25:
+                s["via"] = vrng.randrange(1 << 30)
     for s in scns:
         s.setdefault("_cmp", None)
         props.normalise_cmp(s)
